@@ -26,6 +26,14 @@ def check_slots(E, M, ghost, op, kopt_exempt=False):
         E.prove(M.nsamples[k] == g['cnt'], op + ':slot-sample-count')
         E.prove(M.eval_num[k] == g['ev'], op + ':slot-eval-number')
         E.prove(E.same(M.objval[k], objective(E, M, M.fval_v[k, :], xk)), op + ':slot-objective')
+    # sample counts and evaluation numbers are integer-typed storage (they are handed out as xmin_eval_num / jacmin_eval_nums and
+    # must survive the JSON round trip of the result unchanged, C20)
+    isint = (lambda a: a.dtype == 'i') if E.symbolic else (lambda a: a.dtype.kind in 'iu')
+    E.prove(bool(isint(M.eval_num) and isint(M.nsamples)), op + ':counters-stay-integer-typed')
+    E.prove(bool(isint(M.eval_num) and isint(M.nsamples)), 'C20:%s:evaluation-numbers-stay-integer-typed' % op)
+    cap = int(M.num_pts)
+    E.prove(bool(tuple(M.eval_num.shape) == (cap,) and tuple(M.nsamples.shape) == (cap,) and tuple(M.objval.shape) == (cap,)
+                 and tuple(M.points.shape) == (cap, n) and tuple(M.fval_v.shape) == (cap, m)), op + ':per-point-arrays-have-one-entry-per-slot')
     kopt = M.kopt
     E.prove(E.all([0 <= kopt, kopt < npt]), op + ':kopt-range')
     if not kopt_exempt:
